@@ -2,7 +2,10 @@ package lakeh
 
 import (
 	"encoding/json"
+	"fmt"
 	"math/rand"
+	"os"
+	"strconv"
 
 	"verifharness/hlib"
 )
@@ -20,6 +23,9 @@ type Plan struct {
 // model comparison.
 func RunPlan(c *hlib.Ctx, pl Plan) {
 	opt := pl.Opt
+	if n, err := strconv.Atoi(os.Getenv("VERIF_DET")); err == nil {
+		opt.Determinism = n
+	}
 	var outs []*Outcome
 	runOne := func(h *History) *Outcome { return RunHistory(h, nil, nil, opt) }
 	if c.Replay != nil {
@@ -51,7 +57,10 @@ func RunPlan(c *hlib.Ctx, pl Plan) {
 			rng := rand.New(rand.NewSource(seeds[i]))
 			prof := pl.Profiles[i%len(pl.Profiles)]
 			cfg := GenCfg(rng)
-			texts, keys := GenAlphabet(rng, cfg)
+			if prof.Plain && cfg.Key == "this" {
+				cfg.Key = "k"
+			}
+			texts, keys := GenAlphabet(rng, cfg, prof.Plain)
 			h := &History{Cfg: cfg, Vals: texts, Keys: keys, Profile: prof.Name}
 			gen[i] = RunHistory(h, &prof, rng, opt)
 		})
@@ -72,6 +81,27 @@ func RunPlan(c *hlib.Ctx, pl Plan) {
 		return
 	}
 	ans := c.Model().Batch(lines)
+	if os.Getenv("VERIF_DUMP") != "" {
+		for k, a := range ans {
+			o := outs[idx[k]]
+			fmt.Println("HISTORY", o.H.Summary())
+			for i, ob := range o.Obs {
+				b, _ := json.Marshal(ob)
+				fmt.Printf("REAL %d %s\n", i, b)
+			}
+			if mo, err := ParseModelAnswer(a); err == nil {
+				for i, ob := range mo {
+					b, _ := json.Marshal(ob)
+					fmt.Printf("MODEL %d %s\n", i, b)
+				}
+			} else {
+				fmt.Println("MODEL", a)
+			}
+			for i, v := range o.T.Vals {
+				fmt.Printf("VAL %d %s key=%s\n", i, v.Text, v.Key)
+			}
+		}
+	}
 	for k, a := range ans {
 		CompareModel(c, outs[idx[k]], opt, a)
 	}
